@@ -166,6 +166,18 @@ CLAIMED = {
         technique="Rocq proof (invariant + induction over streams on the composed receive/session model) + in-Coq differential correspondence over all cut offsets + loopback-socket runs under deadlines",
         design="5/C09",
     ),
+    "C10": dict(
+        text="Theorems (Props/C10.v): TcpConnection.send_data's loop, as harness/gen_send.py reads it off the source (it advances by the count send() returns: "
+             "C10_send_loop_as_translated), against a socket that answers every send() call arbitrarily (takes n >= 1 bytes, would block, fails): whenever success is reported the "
+             "socket has taken exactly the message - complete, once, in order (C10_success_means_complete, for all messages and all answer sequences); otherwise what was taken is a "
+             "prefix and success is not reported (C10_otherwise_prefix); the same for a block cut into packets of any size (C10_block_success_complete); a loop that treats one "
+             "accepted send() as 'all sent' is refuted (C10_oneshot_refuted). Tied to the code by running send_data against scripted sockets and by real loopback transfers up "
+             "to 4 MiB with small socket buffers and three receiver pacings.",
+        note=NOTE_COMMON + " Partial: the kernel's TCP (what the socket took is what the peer reads, in order) is trusted; the busy wait for writability (a peer that never reads keeps "
+             "send_data waiting rather than failing) and the receiving side's recv loop are outside the model.",
+        technique="Rocq proof (induction over arbitrary socket behaviours) + Python-ast shape translator + in-Coq differential correspondence on scripted sockets + loopback transfers",
+        design="5/C10",
+    ),
     "C11": dict(
         text="Theorems (Props/C11.v): for each of the 8 configured defaults and EVERY history of operator switches, S1F15/S1F17 and event enable/disable, the "
              "model's control state is E30's, what it sends (S1F1 probe, S1F16/S1F18 with the code, collection events when enabled) is among what E30 admits and "
